@@ -177,3 +177,10 @@ func applyAll(c *nm.Container, adjs []*api.ContainerAdjustment) (*SpecObs, error
 	}
 	return observe(s), nil
 }
+
+// xgenWithInjector wraps a spec in the project's generator with the given CDI injector (implementation-only
+// stream of the gen driver).
+func xgenWithInjector(s *rspec.Spec, inj func(*rspec.Spec, []string) error) *xgen.Generator {
+	rg := &rgen.Generator{Config: s}
+	return xgen.SpecGenerator(rg, xgen.WithCDIDeviceInjector(inj))
+}
